@@ -28,9 +28,9 @@ least one result. The `_partial` theorems carry exactly that side condition, par
 model variant `cfg` (one boolean per defect class, selected by probing the real tool): each clause
 disappears when the corresponding defect is repaired: the `*_fixed` theorems are the full-strength
 statements for every variant `cfg` whose relevant flags are set (they name exactly the flags they
-need; `probed` below is the variant the check selected on the tree at 69ab8ff: everything repaired
-except the uncurry name clash, so all `*_fixed` theorems apply except `uncurry_spec_fixed`, for which
-`uncurry_spec_partial` with its disjointness clause is the applicable one).
+need; `probed` below is the variant the check selects on the tree at 94a60e5: everything repaired, so
+every `*_fixed` theorem applies and NO wrapper of the family needs a side condition any more; the
+`_partial` theorems and the `*_full_fails` witnesses document the historical variants).
 
 "Exactly once": a wrapper is a nest of function literals; building it (and every partial
 application) evaluates nothing, and each INVOCATION of the innermost function calls `f` once —
@@ -59,11 +59,12 @@ def sigAB : List Param := [⟨['a'], 0⟩, ⟨['b'], 1⟩]
 
 def rev (l : List Nat) : List Nat := l.reverse
 
-/-- the model variant probed on the current tree (18449d4): every repair landed except the one for
-two parameter lists of uncurry that share a user-written name (known finding F6b) -/
-def probed : Cfg :=
-  { unnamedFixed := true, shadowFixed := true, crossFixed := false, voidFixed := true, prefixFixed := true,
-    universeFixed := true, resultsFixed := true }
+/-- the model variant probed on the current tree (94a60e5): every repair landed -/
+def probed : Cfg := Cfg.fixed
+
+/-- the variant before the last repair (18449d4): two parameter lists of uncurry that share a
+user-written name still clashed (F6b) -/
+def beforeCross : Cfg := { Cfg.fixed with crossFixed := false }
 
 private theorem okNames (cfg : Cfg) {ps : List Param} (hv : ValidSig ps) (hs : Side cfg [fName] ps) :
     NamesOk [fName] (effParams cfg [fName] paramPrefix ps) :=
@@ -227,55 +228,73 @@ example : wrapperWellFormed (applyTm Cfg.current sigUnnamed 1) = false := by dec
 
 /-! ### Uncurry -/
 
-/-- the side condition of uncurry: both parameter lists satisfy the common condition, and the two
-lists — as renamed by the generator itself — do not share a name (unless repaired) -/
-theorem uncurry_spec_partial {α} (cfg : Cfg) (outer inner : List Param) (f : List α → List α) (a : α) (rest : List α)
+/-- HISTORICAL variants (before 94a60e5, `crossFixed = false`): both parameter lists satisfy the common
+condition, and the two lists — as renamed by the generator itself — do not share a name -/
+theorem uncurry_spec_partial {α} (cfg : Cfg) (hc : cfg.crossFixed = false)
+    (outer inner : List Param) (f : List α → List α) (a : α) (rest : List α)
     (hlen1 : outer.length = 1) (hlen2 : inner.length = rest.length)
     (hvo : ValidSig outer) (hvi : ValidSig inner)
     (hso : Side cfg [fName] outer) (hsi : Side cfg [fName] inner)
-    (hx : cfg.crossFixed = true ∨
-      ∀ n ∈ names (effParams cfg [fName] paramPrefix outer), n ∉ names (effParams cfg [fName] innerPrefix inner)) :
+    (hx : ∀ n ∈ names (effParams cfg [fName] paramPrefix outer), n ∉ names (effParams cfg [fName] innerPrefix inner)) :
     runUncurry cfg outer inner f (a :: rest) = Spec.uncurrySpec f (a :: rest) :=
-  runUncurry_eq cfg outer inner f a rest hlen1 hlen2 (uncurryParams_namesOk cfg outer inner hvo hvi hso hsi hx)
+  runUncurry_eq cfg outer inner f a rest hlen1 hlen2 (uncurryParams_namesOk cfg outer inner hc hvo hvi hso hsi hx)
 
 example : runUncurry Cfg.current [⟨['a'], 0⟩] [⟨['_'], 1⟩, ⟨['c'], 2⟩] rev [1, 2, 3]
     = some ([[1], [1, 2, 3]], [3, 2, 1]) :=
-  uncurry_spec_partial Cfg.current [⟨['a'], 0⟩] [⟨['_'], 1⟩, ⟨['c'], 2⟩] rev 1 [2, 3] rfl rfl (by decide) (by decide)
-    (side_current (by decide) (by decide)) (side_current (by decide) (by decide)) (Or.inr (by decide))
+  uncurry_spec_partial Cfg.current rfl [⟨['a'], 0⟩] [⟨['_'], 1⟩, ⟨['c'], 2⟩] rev 1 [2, 3] rfl rfl (by decide) (by decide)
+    (side_current (by decide) (by decide)) (side_current (by decide) (by decide)) (by decide)
 
+/-- THE CURRENT CODE (94a60e5; unnamed, `f`/`err`, the generator's own prefixes unusable, and an inner
+parameter that bears the outer parameter's name renamed to `innerParam_<its index>` before the blank
+renaming): NO side condition. For every outer parameter and every inner parameter list that Go accepts,
+`deriveUncurry(fc)(a, rest…)` enters `fc` once with `a` and the function it returns once with `rest`,
+every argument in its position. -/
 theorem uncurry_spec_fixed {α} (cfg : Cfg) (hu : cfg.unnamedFixed = true) (hs : cfg.shadowFixed = true)
-    (hc : cfg.crossFixed = true)
+    (hpf : cfg.prefixFixed = true) (hc : cfg.crossFixed = true)
     (outer inner : List Param) (f : List α → List α) (a : α) (rest : List α)
     (hlen1 : outer.length = 1) (hlen2 : inner.length = rest.length)
     (hvo : ValidSig outer) (hvi : ValidSig inner) :
     runUncurry cfg outer inner f (a :: rest) = Spec.uncurrySpec f (a :: rest) :=
-  uncurry_spec_partial cfg outer inner f a rest hlen1 hlen2 hvo hvi (side_of_flags hu hs _ _) (side_of_flags hu hs _ _) (Or.inl hc)
+  runUncurry_eq cfg outer inner f a rest hlen1 hlen2 (uncurryParams_namesOk_fixed cfg hu hs hpf hc outer inner hlen1 hvo hvi)
 
-example : runUncurry Cfg.fixed [⟨['a'], 0⟩] [⟨['a'], 1⟩] rev [1, 2] = some ([[1], [1, 2]], [2, 1]) :=
-  uncurry_spec_fixed Cfg.fixed rfl rfl rfl [⟨['a'], 0⟩] [⟨['a'], 1⟩] rev 1 [2] rfl rfl (by decide) (by decide)
+example : runUncurry probed [⟨['a'], 0⟩] [⟨['a'], 1⟩] rev [1, 2] = some ([[1], [1, 2]], [2, 1]) :=
+  uncurry_spec_fixed probed rfl rfl rfl rfl [⟨['a'], 0⟩] [⟨['a'], 1⟩] rev 1 [2] rfl rfl (by decide) (by decide)
 
-/-- on the probed variant the clash is still there (known finding F6b) and `uncurry_spec_partial`
-applies with its disjointness clause, e.g. for unnamed parameter lists -/
-example : runUncurry probed [⟨[], 0⟩] [⟨[], 1⟩, ⟨[], 2⟩] rev [1, 2, 3] = some ([[1], [1, 2, 3]], [3, 2, 1]) :=
-  uncurry_spec_partial probed [⟨[], 0⟩] [⟨[], 1⟩, ⟨[], 2⟩] rev 1 [2, 3] rfl rfl (by decide) (by decide)
-    (side_of_flags rfl rfl _ _) (side_of_flags rfl rfl _ _) (Or.inr (by decide))
-example : wrapperWellFormed (uncurryTm probed [⟨['a'], 0⟩] [⟨['a'], 1⟩] 1) = false := by decide
+/-- `func(a A) func(_ B, a C) R`: `renameParam` makes the second inner parameter `innerParam_1` (its index
+in the inner list), then the blank becomes `innerParam_0`: merged list `a, innerParam_0, innerParam_1` -/
+example : uncurryParams probed [⟨['a'], 0⟩] [⟨['_'], 1⟩, ⟨['a'], 2⟩]
+    = ([⟨['a'], 0⟩], [⟨innerPrefix ++ ['0'], 1⟩, ⟨innerPrefix ++ ['1'], 2⟩]) := by decide
+/-- … also when the user wrote `innerParam_1` himself: `func(a A) func(innerParam_1 B, a C) R` -/
+example : names (uncurryParams probed [⟨['a'], 0⟩] [⟨innerPrefix ++ ['1'], 1⟩, ⟨['a'], 2⟩]).2
+    = [innerPrefix ++ ['0'], innerPrefix ++ ['1']] := by decide
+example : runUncurry probed [⟨['a'], 0⟩] [⟨['_'], 1⟩, ⟨['a'], 2⟩] rev [1, 2, 3] = some ([[1], [1, 2, 3]], [3, 2, 1]) :=
+  uncurry_spec_fixed probed rfl rfl rfl rfl _ _ rev 1 [2, 3] rfl rfl (by decide) (by decide)
 
-theorem uncurry_compiles_partial (cfg : Cfg) (outer inner : List Param) (nres : Nat)
+theorem uncurry_compiles_partial (cfg : Cfg) (hc : cfg.crossFixed = false) (outer inner : List Param) (nres : Nat)
     (hvo : ValidSig outer) (hvi : ValidSig inner)
     (hso : Side cfg [fName] outer) (hsi : Side cfg [fName] inner)
-    (hx : cfg.crossFixed = true ∨
-      ∀ n ∈ names (effParams cfg [fName] paramPrefix outer), n ∉ names (effParams cfg [fName] innerPrefix inner))
+    (hx : ∀ n ∈ names (effParams cfg [fName] paramPrefix outer), n ∉ names (effParams cfg [fName] innerPrefix inner))
     (hret : 0 < nres ∨ cfg.voidFixed = true) :
     wrapperWellFormed (uncurryTm cfg outer inner nres) = true :=
-  uncurry_wf cfg outer inner nres (uncurryParams_namesOk cfg outer inner hvo hvi hso hsi hx) hret
+  uncurry_wf cfg outer inner nres (uncurryParams_namesOk cfg outer inner hc hvo hvi hso hsi hx) hret
 
 example : wrapperWellFormed (uncurryTm Cfg.current [⟨['a'], 0⟩] [⟨['_'], 1⟩, ⟨['c'], 2⟩] 1) = true :=
-  uncurry_compiles_partial Cfg.current [⟨['a'], 0⟩] [⟨['_'], 1⟩, ⟨['c'], 2⟩] 1 (by decide) (by decide)
-    (side_current (by decide) (by decide)) (side_current (by decide) (by decide)) (Or.inr (by decide)) (Or.inl (by decide))
+  uncurry_compiles_partial Cfg.current rfl [⟨['a'], 0⟩] [⟨['_'], 1⟩, ⟨['c'], 2⟩] 1 (by decide) (by decide)
+    (side_current (by decide) (by decide)) (side_current (by decide) (by decide)) (by decide) (Or.inl (by decide))
 
-/-- today: `func(a A) func(a B) R` gives `func(a A, a B) R`; and the generator's own renaming clashes
-with a user name: `func(innerParam_0 A) func(_ B) R` -/
+/-- the current code: the uncurry wrapper compiles for every pair of parameter lists and every number
+of results -/
+theorem uncurry_compiles_fixed (cfg : Cfg) (hu : cfg.unnamedFixed = true) (hs : cfg.shadowFixed = true)
+    (hpf : cfg.prefixFixed = true) (hc : cfg.crossFixed = true) (hvoid : cfg.voidFixed = true)
+    (outer inner : List Param) (nres : Nat) (hlen1 : outer.length = 1) (hvo : ValidSig outer) (hvi : ValidSig inner) :
+    wrapperWellFormed (uncurryTm cfg outer inner nres) = true :=
+  uncurry_wf cfg outer inner nres (uncurryParams_namesOk_fixed cfg hu hs hpf hc outer inner hlen1 hvo hvi) (Or.inr hvoid)
+
+example : wrapperWellFormed (uncurryTm probed [⟨['a'], 0⟩] [⟨['a'], 1⟩, ⟨['_'], 2⟩] 0) = true :=
+  uncurry_compiles_fixed probed rfl rfl rfl rfl rfl _ _ 0 rfl (by decide) (by decide)
+
+/-- at the pinned commit: `func(a A) func(a B) R` gave `func(a A, a B) R`; and the generator's own renaming
+clashed with a user name: `func(innerParam_0 A) func(_ B) R` -/
 theorem uncurry_full_fails :
     ¬ ∀ (outer inner : List Param) (f : List Nat → List Nat) (a : Nat) (rest : List Nat),
         ValidSig outer → ValidSig inner → outer.length = 1 → inner.length = rest.length →
@@ -316,34 +335,42 @@ theorem uncurry_curry_fixed {α} (cfg : Cfg) (hu : cfg.unnamedFixed = true) (hs 
   have he : (currySig (effParams cfg [fName] paramPrefix ps)).1 ++ (currySig (effParams cfg [fName] paramPrefix ps)).2
       = effParams cfg [fName] paramPrefix ps := List.take_append_drop 1 _
   rw [← he] at hok
-  refine uncurryParams_namesOk_prefix cfg hu hs hpf _ _ (validSig_of_namesOk hok.left) (validSig_of_namesOk hok.right) ?_
-  intro n h1 h2
-  have := hok.2.1
-  rw [names_append] at this
-  exact absurd rfl ((List.nodup_append.1 this).2.2 n h1 n h2)
+  cases hcv : cfg.crossFixed with
+  | false =>
+    refine uncurryParams_namesOk_prefix cfg hu hs hpf hcv _ _ (validSig_of_namesOk hok.left) (validSig_of_namesOk hok.right) ?_
+    intro n h1 h2
+    have := hok.2.1
+    rw [names_append] at this
+    exact absurd rfl ((List.nodup_append.1 this).2.2 n h1 n h2)
+  | true =>
+    refine uncurryParams_namesOk_fixed cfg hu hs hpf hcv _ _ ?_ (validSig_of_namesOk hok.left) (validSig_of_namesOk hok.right)
+    have hl := length_effParams cfg [fName] paramPrefix ps
+    simp only [currySig, List.length_take]
+    omega
 
 example : runUncurryCurry probed sigUnnamed rev [1, 2] = some ([[1, 2]], [2, 1]) :=
   uncurry_curry_fixed probed rfl rfl rfl sigUnnamed rev 1 [2] rfl (by decide)
 
-/-- Uncurry on such a variant: the side condition that is left is the user's own clash — a name
-written in BOTH parameter lists that is not renamed anyway (known finding F6b); the clashes through
-the generator's own `param_<i>` / `innerParam_<i>` names are gone -/
+/-- Uncurry on the variant between c612461 and 94a60e5: the side condition that was left is the user's
+own clash — a name written in BOTH parameter lists that is not renamed anyway (finding F6b, since
+repaired); the clashes through the generator's own `param_<i>` / `innerParam_<i>` names were gone -/
 theorem uncurry_spec_prefix {α} (cfg : Cfg) (hu : cfg.unnamedFixed = true) (hs : cfg.shadowFixed = true)
-    (hpf : cfg.prefixFixed = true)
+    (hpf : cfg.prefixFixed = true) (hc : cfg.crossFixed = false)
     (outer inner : List Param) (f : List α → List α) (a : α) (rest : List α)
     (hlen1 : outer.length = 1) (hlen2 : inner.length = rest.length)
     (hvo : ValidSig outer) (hvi : ValidSig inner)
     (hd : ∀ n ∈ names outer, n ∈ names inner → unusable cfg n = true) :
     runUncurry cfg outer inner f (a :: rest) = Spec.uncurrySpec f (a :: rest) :=
-  runUncurry_eq cfg outer inner f a rest hlen1 hlen2 (uncurryParams_namesOk_prefix cfg hu hs hpf outer inner hvo hvi hd)
+  runUncurry_eq cfg outer inner f a rest hlen1 hlen2 (uncurryParams_namesOk_prefix cfg hu hs hpf hc outer inner hvo hvi hd)
 
 /-- `func(innerParam_0 A) func(_ B, param_0 C) R` and `func(_ A) func(_ B) R` are fine now -/
-example : runUncurry probed [⟨innerPrefix ++ ['0'], 0⟩] [⟨['_'], 1⟩, ⟨paramPrefix ++ ['0'], 2⟩] rev [1, 2, 3]
+example : runUncurry beforeCross [⟨innerPrefix ++ ['0'], 0⟩] [⟨['_'], 1⟩, ⟨paramPrefix ++ ['0'], 2⟩] rev [1, 2, 3]
     = some ([[1], [1, 2, 3]], [3, 2, 1]) :=
-  uncurry_spec_prefix probed rfl rfl rfl _ _ rev 1 [2, 3] rfl rfl (by decide) (by decide) (by decide)
-example : wrapperWellFormed (uncurryTm probed [⟨innerPrefix ++ ['0'], 0⟩] [⟨['_'], 1⟩] 1) = true := by decide
-/-- … and `func(a A) func(a B) R` still is not -/
-example : wrapperWellFormed (uncurryTm probed [⟨['a'], 0⟩] [⟨['a'], 1⟩] 1) = false := by decide
+  uncurry_spec_prefix beforeCross rfl rfl rfl rfl _ _ rev 1 [2, 3] rfl rfl (by decide) (by decide) (by decide)
+example : wrapperWellFormed (uncurryTm beforeCross [⟨innerPrefix ++ ['0'], 0⟩] [⟨['_'], 1⟩] 1) = true := by decide
+/-- … `func(a A) func(a B) R` was not, and is now -/
+example : wrapperWellFormed (uncurryTm beforeCross [⟨['a'], 0⟩] [⟨['a'], 1⟩] 1) = false ∧
+    wrapperWellFormed (uncurryTm probed [⟨['a'], 0⟩] [⟨['a'], 1⟩] 1) = true := by decide
 
 /-- named results: when one of them bears a name the wrappers use (`f`, `param_…`, `innerParam_…`) all
 result names are dropped (`resultsFixed`), and nothing is left that could hide or duplicate a name -/
